@@ -331,6 +331,35 @@ pub fn run_transition_h(
                 format!("current_size() = {} but the sizes recorded for the remaining entries sum to {}", post_dump.current_size, post_walk.recorded_sum),
             ));
         }
+        // "... traversal in both directions still mirrors, matches len() and agrees with lookups" -
+        // also after further use of a cache that survived a fault
+        st.rule("postfault.lookup");
+        let saved_counts = counts();
+        {
+            let c = ex.cr();
+            let n = post_obs.entries.len();
+            let mut rev: Vec<u64> = c.iter().rev().take(n + 2).map(|(k, _)| k.serial).collect();
+            rev.reverse();
+            let fwd: Vec<u64> = post_obs.entries.iter().map(|x| x.kserial).collect();
+            if rev != fwd || c.len() != n {
+                viol.push(v(ctx.fault_props, "postfault.mirror", format!("forward traversal {:?}, reversed reverse traversal {:?}, len() = {}", fwd, rev, c.len())));
+            }
+            let mut ids: Vec<u32> = (0..u.nkeys as u32).collect();
+            for x in &post_obs.entries {
+                if !ids.contains(&x.id) {
+                    ids.push(x.id);
+                }
+            }
+            for id in ids.into_iter().take(64) {
+                let exp = post_obs.entries.iter().find(|x| x.id == id).map(|x| (x.kserial, x.vserial));
+                let got = c.peek_entry(&QKey(KeyId(id))).map(|(k, x)| (k.serial, x.serial));
+                if got != exp {
+                    viol.push(v(ctx.fault_props, "postfault.lookup", format!("lookup of k{id} finds {:?} but traversal holds {:?}", got, exp)));
+                    break;
+                }
+            }
+        }
+        restore_counts(saved_counts);
     }
 
     let o = &post_obs;
